@@ -16,7 +16,7 @@ META = dict(
     assumptions=_e2.ASSUMPTIONS,
     bounds=dict(quick='E2: n<=2 source items, buffer<=2, workers<=2, K=50 (single thread) / 60 (pool) steps, all schedules and completion orders; '
                       'E1: n<=3, buffer_size/num_workers unbounded symbolic ints',
-                thorough='E2: single thread n<=3, buffer<=3, K=75; pools n<=3, buffer<=2, workers<=2, K=60; E1 as quick'),
+                thorough='E2: single thread n<=3 (K=75) and n<=4 (K=95), buffer<=3; pools n<=3, buffer<=2, workers<=2, K=60; thread pool n<=3, buffer<=3, workers<=3, K=64; E1 as quick'),
     outside=['n, buffer, workers above the bounds', 'internals of queue/threading/executors (contracts)', 'pickling of functions for process pools', 'backend=False'],
 )
 
